@@ -425,6 +425,10 @@ func genC01(t *rapid.T) *c01Msg {
 		m.Gaps = append(m.Gaps, rapid.SampledFrom([]int{1, 1, 1, 2, 3}).Draw(t, "gap"))
 		if rapid.IntRange(0, 4).Draw(t, "trailing_empty") != 0 {
 			trl := genUnits(t, "trailing", trailingUnits, 1, 14)
+			if rapid.IntRange(0, 40).Draw(t, "long_trailing") == 0 {
+				// longer than the reader's 4096-byte buffer
+				trl += strings.Repeat("L", rapid.SampledFrom([]int{3900, 4000, 4090, 4100, 8192, 9000}).Draw(t, "long_len")+rapid.IntRange(0, 99).Draw(t, "long_off"))
+			}
 			if isMsg && trl[0] == '\x01' {
 				trl = "z" + trl
 			}
